@@ -51,6 +51,24 @@ def loc(pat):
     return n
 inv += ["", "Size of the Lean development: models %d lines, drivers %d, lemma files %d, property files %d." % (loc("Model/*.lean"), loc("Drive/*.lean"), loc("Lemmas/*.lean"), loc("Props/*.lean"))]
 txt = put(txt, "INVENTORY", "\n".join(inv))
+# per-property status as built: what is proved, what is assumed, what is only exercised (from the registrations)
+st = []
+for pid in sorted(PROPS):
+    c = PROPS[pid]
+    st.append("#### %s" % pid)
+    st.append("")
+    st.append("*Modules:* %s. *Stages:* %s." % (", ".join("`%s`" % m for m in c["lean_modules"]),
+              ", ".join("`bvh %s`%s" % (" ".join(x["cmd"]), " (profile %s)" % x["profile"] if x.get("profile") else "") for x in c["stages"])))
+    st.append("")
+    st.append("*Proved / level:* " + c.get("level_text", "").strip())
+    st.append("")
+    if c.get("level_note"):
+        st.append("*Trusted, assumed, partial:* " + c["level_note"].strip())
+        st.append("")
+    if c.get("rule"):
+        st.append("*What the run covers:* " + c["rule"].strip())
+        st.append("")
+txt = put(txt, "STATUS", "\n".join(st))
 txt = put(txt, "FIXED", fixed_md)
 txt = put(txt, "SEEDS", seeds_md)
 open(p, "w").write(txt)
